@@ -430,6 +430,7 @@ package scipipe
 // record when the task starts (old(auditInfo) != nil: every IP received from an upstream task of this run, and every IP
 // created for an existing file). A tag with an empty value counts as absent (AddTag lets any value overwrite it).
 //@ define inTagsKept(t *Task) bool = forall i string, k string :: i in t.InIPs && old(t.InIPs[i].auditInfo) != nil ==> t.InIPs[i].auditInfo == old(t.InIPs[i].auditInfo) && t.InIPs[i].auditInfo.Tags == old(t.InIPs[i].auditInfo.Tags) && ((k in t.InIPs[i].auditInfo.Tags) <==> old(k in t.InIPs[i].auditInfo.Tags)) && t.InIPs[i].auditInfo.Tags[k] == old(t.InIPs[i].auditInfo.Tags[k])
+//@ define inTagsApart(t *Task, a *AuditInfo) bool = forall i string :: i in t.InIPs && old(t.InIPs[i].auditInfo) != nil ==> old(t.InIPs[i].auditInfo.Tags) != a.OutFiles && old(t.InIPs[i].auditInfo.Tags) != a.Tags && old(t.InIPs[i].auditInfo) != a
 //@ define tagsFrom(t *Task, a *AuditInfo, i string) bool = forall k string :: old(k in t.InIPs[i].auditInfo.Tags) && old(t.InIPs[i].auditInfo.Tags[k]) != "" ==> a.Tags[k] == old(t.InIPs[i].auditInfo.Tags[k])
 //@ define freshRecord(a *AuditInfo) bool = fresh(a) && fresh(a.Upstream) && fresh(a.OutFiles) && fresh(a.Tags) && a.Upstream != nil && a.OutFiles != nil && a.Tags != nil && a.Tags != a.OutFiles && a.Tags != a.Params && a.OutFiles != a.Params
 //@ define outFilesRecorded(t *Task, a *AuditInfo) bool = (forall n string :: n in a.OutFiles <==> n in t.OutIPs) && (forall n string :: n in t.OutIPs ==> a.OutFiles[n] == t.OutIPs[n].path)
@@ -454,12 +455,14 @@ package scipipe
 //@   ensures audit-file-written-for-every-output[C10]: forall o string :: o in t.OutIPs ==> effCreated[t.OutIPs[o].path + ".audit.json"]
 //@   ensures upstream-tags-present-downstream[C10]: (exists o string :: o in t.OutIPs) ==> exists a *AuditInfo :: (forall o string :: o in t.OutIPs ==> t.OutIPs[o].auditInfo == a) && (forall i string :: i in t.InIPs && old(t.InIPs[i].auditInfo) != nil ==> tagsFrom(t, a, i))
 //@   loop 0 invariant in-tags-kept: inTagsKept(t)
+//@   loop 0 invariant in-tags-apart: inTagsApart(t, auditInfo)
 //@   loop 0 invariant rec: recordOf(t, auditInfo, startTime, finishTime) && freshRecord(auditInfo)
 //@   loop 0 invariant distinct: old(inputsDistinct(t)) ==> inputsDistinct(t)
 //@   loop 0 invariant vis: forall i string :: $visited[i] ==> i in t.InIPs
 //@   loop 0 invariant linked-plain: old(inputsDistinct(t)) ==> forall i string :: $visited[i] && !isJoin(t, i) ==> linkedPlain(t, auditInfo, i)
 //@   loop 0 invariant linked-join: old(inputsDistinct(t)) ==> forall i string, j int :: $visited[i] && isJoin(t, i) && 0 <= j && j < len(t.subStreamIPs[i]) ==> linkedMember(t, auditInfo, i, j)
 //@   loop 1 invariant in-tags-kept: inTagsKept(t)
+//@   loop 1 invariant in-tags-apart: inTagsApart(t, auditInfo)
 //@   loop 1 invariant rec: recordOf(t, auditInfo, startTime, finishTime) && freshRecord(auditInfo)
 //@   loop 1 invariant distinct: old(inputsDistinct(t)) ==> inputsDistinct(t)
 //@   loop 1 invariant vis: forall i string :: $visited0[i] ==> i in t.InIPs
@@ -468,11 +471,13 @@ package scipipe
 //@   loop 1 invariant linked-join: old(inputsDistinct(t)) ==> forall i string, j int :: $visited0[i] && i != inpName && isJoin(t, i) && 0 <= j && j < len(t.subStreamIPs[i]) ==> linkedMember(t, auditInfo, i, j)
 //@   loop 1 invariant linked-cur: old(inputsDistinct(t)) ==> forall j int :: 0 <= j && j < $i ==> linkedMember(t, auditInfo, inpName, j)
 //@   loop 2 invariant in-tags-kept: inTagsKept(t)
+//@   loop 2 invariant in-tags-apart: inTagsApart(t, auditInfo)
 //@   loop 2 invariant rec: recordOf(t, auditInfo, startTime, finishTime) && freshRecord(auditInfo)
 //@   loop 2 invariant linked: old(inputsDistinct(t)) ==> upstreamLinked(t, auditInfo)
 //@   loop 2 invariant vis: forall n string :: $visited[n] ==> n in t.OutIPs
 //@   loop 2 invariant outfiles: (forall n string :: n in auditInfo.OutFiles <==> $visited[n]) && (forall n string :: $visited[n] ==> auditInfo.OutFiles[n] == t.OutIPs[n].path)
 //@   loop 3 invariant in-tags-kept: inTagsKept(t)
+//@   loop 3 invariant in-tags-apart: inTagsApart(t, auditInfo)
 //@   loop 3 invariant tags-merged: (exists o string :: $visited[o]) ==> forall i string :: i in t.InIPs && old(t.InIPs[i].auditInfo) != nil ==> tagsFrom(t, auditInfo, i)
 //@   loop 3 invariant rec: recordOf(t, auditInfo, startTime, finishTime) && freshRecord(auditInfo) && outFilesRecorded(t, auditInfo)
 //@   loop 3 invariant linked: old(inputsDistinct(t)) ==> upstreamLinked(t, auditInfo)
@@ -481,6 +486,7 @@ package scipipe
 //@   loop 3 invariant only-audit-files: forall p string :: effCreated[p] && !old(effCreated)[p] ==> auditFileOf(t, p)
 //@   loop 3 invariant grows: forall p string :: old(effCreated)[p] ==> effCreated[p]
 //@   loop 4 invariant in-tags-kept: inTagsKept(t)
+//@   loop 4 invariant in-tags-apart: inTagsApart(t, auditInfo)
 //@   loop 4 invariant vis: forall i string :: $visited[i] ==> i in t.InIPs
 //@   loop 4 invariant tags-so-far: forall i string :: $visited[i] && old(t.InIPs[i].auditInfo) != nil ==> tagsFrom(t, auditInfo, i)
 //@   loop 4 invariant tags-before: (exists o string :: $visited3[o] && t.OutIPs[o] != oip) ==> forall i string :: i in t.InIPs && old(t.InIPs[i].auditInfo) != nil ==> tagsFrom(t, auditInfo, i)
